@@ -235,6 +235,7 @@ def gen_case(rng, dtypes):
             r = int(rng.integers(1, nk + 1))
             case["margins"] = sorted(int(x) for x in rng.choice(nk, size=r, replace=False))
         case["sort"] = bool(rng.random() < 0.8)
+        common.add_route(rng, case, 0.2)
     else:
         case["nrow"] = int(rng.integers(1, nk)) if nk < 4 else 2
         case["margins"] = gen.pick(rng, [False, True, "row", "column"])
